@@ -65,6 +65,9 @@ for _mk, _parser, _sel in [
      '|title, *|entry > |title'),
     ('<feed xmlns="urn:f" xmlns:dc="urn:dc"><title id="1">a</title><dc:title id="2">b</dc:title><x xmlns="" id="3"/></feed>', 'xml',
      '|title, |x, *|title:first-child'),
+    # a prefix that is not a CSS identifier as it stands (Beautiful Soup forwards it raw; a selector writes it escaped)
+    ('<root xmlns:dc.terms="urn:dc" xmlns:a-b="urn:ab"><item id="1"/><dc.terms:item id="2"/><a-b:item id="3"/></root>', 'xml',
+     'item, dc\\.terms|item'),
     ('<div id="1"><p id="2"></p></div>', 'lxml', '|div, |p, *|p'),
     ('<div id="1"><svg id="2"><circle id="3"></circle></svg></div>', 'html5lib', '|div, |circle, *|circle, |svg'),
 ]:
